@@ -62,6 +62,7 @@ var c11SVGSeeds = []string{
 	`<svg width="10mm" height="2cm"><g transform="translate(1,2) rotate(30) scale(2)"><path d="M0 0L5 5z" style="fill:blue;stroke:black"/><ellipse cx="1" cy="2" rx="3" ry="4"/><line x1="0" y1="0" x2="5" y2="5"/><polyline points="0,0 1,1 2,0"/><polygon points="0 0 1 1 2 0"/></g></svg>`,
 	`<?xml version="1.0"?><svg viewBox="0 0 10 10"><style>.a{fill:#0f0} #b{stroke:red} rect{fill:none}</style><rect class="a" id="b" width="5" height="5"/><text x="1" y="2">hi</text><defs><linearGradient id="g"><stop offset="0" stop-color="#fff"/></linearGradient></defs><rect fill="url(#g)" width="1" height="1"/></svg>`,
 	`<svg viewBox="0 0 10 10"><defs><linearGradient id="g" x1="0" x2="1"><stop offset="0" stop-color="#fff"/><stop offset="100%" stop-color="red" stop-opacity=".5"/></linearGradient><radialGradient id="r"/></defs><path fill="url(x#)" d="M0 0L5 5z"/><rect fill="url('#g')" stroke="url(#r)" width="4" height="4"/><circle r="2" fill="url(#)"/><circle r="2" fill="url()"/><circle r="2" fill="url('#')"/><path d="M0 0h1" marker-end="url(#m)" clip-path="url(#c)" mask="url(#)"/><marker id="m" markerWidth="3" markerHeight="50%" viewBox="0 0 1 1"/></svg>`,
+	`<svg width="20" height="10"><text x="1" y="5" font-family="no-such-font-xyz" font-size="3" text-anchor="middle">hi &amp; bye</text><g font-family="serif" style="font-family:another-missing-font;font-size:2px"><text x="2" y="8" text-anchor="end">x<tspan>y</tspan></text><text font-family=""> </text></g></svg>`,
 	`<svg width="50%" height="1e2px" viewBox="0,0,10,10"><g><g><g transform="matrix(1 0 0 1 0 0) skewX(10)"><rect width="100%" height="50%" rx="1"/></g></g></g></svg>`,
 }
 
